@@ -75,6 +75,9 @@ def source_arrays(src, k, rng):
         kk = kk * 1.01
     elif rel == 'shifted':
         kk = kk + 0.5 * dk
+    elif rel == 'nan':
+        kk = np.array(kk)
+        kk[int(rng.integers(0, m))] = np.nan
     return w, kk
 
 
